@@ -34,10 +34,10 @@ def main():
                 t0 = time.time()
                 if sh("git apply --check %s" % diff, cwd=WT).returncode:
                     rec["status"] = "patch does not apply to HEAD"; print(json.dumps(rec)[:300]); continue
-                rec["demo_exit_unchanged_tree"] = sh("/venv/bin/python %s" % demo, cwd=WT).returncode
+                rec["demo_exit_unchanged_tree"] = sh("PYTHONPATH=%s /venv/bin/python %s" % (WT, demo), cwd=WT).returncode
                 sh("git apply %s" % diff, cwd=WT)
                 try:
-                    rec["demo_exit_changed_tree"] = sh("/venv/bin/python %s" % demo, cwd=WT).returncode
+                    rec["demo_exit_changed_tree"] = sh("PYTHONPATH=%s /venv/bin/python %s" % (WT, demo), cwd=WT).returncode
                     rec["tests_changed_tree"], failed = tests(WT)
                     rec["tests_same_as_unchanged"] = failed == BASE_FAIL
                 finally:
